@@ -143,6 +143,110 @@ def desugar_struct_objects(tree):
     return tree
 
 
+def inline_hoisted_bound_methods(tree):
+    """`add = self.xs.append` ... `add(v)`: a local that is bound once, to a method looked up on a receiver the function never
+    rebinds, and only ever called, is that method call: `self.xs.append(v)`.  (A bound method keeps the receiver object; with the
+    receiver expression never re-assigned in the function both spellings denote the same object.)"""
+    def plain(e):
+        while isinstance(e, ast.Attribute):
+            e = e.value
+        return isinstance(e, ast.Name)
+    for fn in ast.walk(tree):
+        if not isinstance(fn, (ast.FunctionDef, ast.AsyncFunctionDef)):
+            continue
+        stores = {}
+        for n in ast.walk(fn):
+            if isinstance(n, ast.Name) and isinstance(n.ctx, ast.Store):
+                stores[n.id] = stores.get(n.id, 0) + 1
+        cands = {}
+        for n in ast.walk(fn):
+            if isinstance(n, ast.Assign) and len(n.targets) == 1 and isinstance(n.targets[0], ast.Name) and stores.get(n.targets[0].id) == 1 \
+                    and isinstance(n.value, ast.Attribute) and plain(n.value.value) and not isinstance(n.value.value, ast.Name):
+                cands[n.targets[0].id] = n
+        if not cands:
+            continue
+        calls = {id(c.func) for c in ast.walk(fn) if isinstance(c, ast.Call) and isinstance(c.func, ast.Name)}
+        params = {a.arg for a in fn.args.args + fn.args.kwonlyargs} | ({fn.args.vararg.arg} if fn.args.vararg else set()) | ({fn.args.kwarg.arg} if fn.args.kwarg else set())
+        for name, st in list(cands.items()):
+            recv = ast.unparse(st.value.value)
+            ok = name not in params
+            for n in ast.walk(fn):
+                if isinstance(n, ast.Name) and n.id == name and isinstance(n.ctx, ast.Load) and id(n) not in calls:
+                    ok = False          # the bound method escapes (passed on, returned, compared)
+                if isinstance(n, (ast.Attribute, ast.Name)) and isinstance(getattr(n, 'ctx', None), (ast.Store, ast.Del)) and ast.unparse(n) == recv:
+                    ok = False          # the receiver is rebound somewhere in the function
+                if isinstance(n, (ast.Global, ast.Nonlocal)) and name in n.names:
+                    ok = False
+            if not ok:
+                del cands[name]
+        if not cands:
+            continue
+
+        class R(ast.NodeTransformer):
+            def visit_Call(self, c):
+                self.generic_visit(c)
+                if isinstance(c.func, ast.Name) and c.func.id in cands:
+                    c.func = ast.copy_location(clone(cands[c.func.id].value), c.func)
+                return c
+
+            def visit_Assign(self, a):
+                if any(a is st for st in cands.values()):
+                    return ast.copy_location(ast.Pass(), a)
+                return self.generic_visit(a)
+        fn.body = [R().visit(x) for x in fn.body]
+    ast.fix_missing_locations(tree)
+    return tree
+
+
+def split_chained_assignments(tree):
+    """`t1 = t2 = e` evaluates `e` once and stores it in t1, then t2.  It is rewritten to `A = e; B = A; ...` where A is the first
+    target rooted at an attribute of a name (`self.x`, `self.x[k]`) if there is one, else the first plain name: the other targets
+    then *read* A, so that a local bound together with an attribute is an alias of that attribute for every rule (`xs = self.xs =
+    []`, `self.n = n = len(xs)`).  A constant or plain-name value is simply repeated.  The order of the stores among the targets
+    changes; for names, attributes and subscripts of plain objects that is not observable."""
+    def rooted(t):
+        while isinstance(t, (ast.Attribute, ast.Subscript)):
+            t = t.value
+        return isinstance(t, ast.Name)
+
+    def load(t):
+        c = clone(t)
+        for n in ast.walk(c):
+            if hasattr(n, 'ctx'):
+                n.ctx = ast.Load()
+        return c
+
+    def fix(stmts):
+        out = []
+        for st in stmts:
+            for field in ('body', 'orelse', 'finalbody'):
+                if isinstance(getattr(st, field, None), list) and getattr(st, field) and isinstance(getattr(st, field)[0], ast.stmt):
+                    setattr(st, field, fix(getattr(st, field)))
+            for h in getattr(st, 'handlers', []) or []:
+                h.body = fix(h.body)
+            if isinstance(st, ast.Assign) and len(st.targets) > 1 and all(isinstance(t, (ast.Name, ast.Attribute, ast.Subscript)) and rooted(t) for t in st.targets):
+                names = {t.id for t in st.targets if isinstance(t, ast.Name)}
+                # a target that is read by another target's own expression (d[k] = k = ...) keeps the original statement
+                if any(isinstance(n, ast.Name) and n.id in names for t in st.targets if not isinstance(t, ast.Name) for n in ast.walk(t)):
+                    out.append(st)
+                    continue
+                attrs = [t for t in st.targets if not isinstance(t, ast.Name)]
+                first = attrs[0] if attrs else st.targets[0]
+                rest = [t for t in st.targets if t is not first]
+                out.append(ast.copy_location(ast.Assign(targets=[first], value=st.value), st))
+                simple = isinstance(st.value, (ast.Constant, ast.Name))
+                for t in rest:
+                    out.append(ast.copy_location(ast.Assign(targets=[t], value=clone(st.value) if simple else load(first)), st))
+                continue
+            out.append(st)
+        return out
+    for n in ast.walk(tree):
+        if isinstance(n, (ast.FunctionDef, ast.AsyncFunctionDef)):
+            n.body = fix(n.body)
+    ast.fix_missing_locations(tree)
+    return tree
+
+
 def split_parallel_assignments(tree):
     """`a, b = x, y` with as many values as targets, where no value mentions any of the targets (so nothing is swapped), means
     `a = x; b = y` evaluated left to right: it is rewritten to that sequence, so that every rule sees one assignment per target.
@@ -236,6 +340,8 @@ class Index:
                         raise AnalysisError('cannot parse %s: %s' % (p, e))
                     tree = desugar_struct_objects(tree)
                     tree = split_parallel_assignments(tree)
+                    tree = split_chained_assignments(tree)
+                    tree = inline_hoisted_bound_methods(tree)
                     set_parents(tree)
                     self.mods[rel] = Mod(rel, p, tree, raw.decode('utf-8', 'replace'))
         for m in self.mods.values():
